@@ -307,7 +307,7 @@ class DataSymbol(TypedSymbol):
         else:
             new_init_value = None
         return DataSymbol(self.name, self.datatype, visibility=self.visibility,
-                          interface=self.interface,
+                          interface=self.interface.copy(),
                           is_constant=self.is_constant,
                           initial_value=new_init_value)
 
